@@ -13,7 +13,7 @@ pub const RULE: &str = "case = one random operation history (new / with_capacity
 
 pub const REQUIRED: &[&str] = &[
     "op.new", "op.with_capacity", "op.with_capacity.below_rows", "check.self_equality", "op.from_rows", "op.resize_up", "op.resize_down", "op.resize_zero", "op.reserve",
-    "op.fill", "op.row_write", "op.cell_write", "op.clone", "op.clone_from", "op.eq", "op.iter", "op.iter_rev", "op.iter_mut",
+    "op.fill", "op.fill.byte_uniform_value", "op.row_write", "op.cell_write", "op.clone", "op.clone_from", "op.eq", "op.iter", "op.iter_rev", "op.iter_mut",
     "op.into_iter", "type.u8", "type.u32", "type.f32", "type.i64", "cols.1", "cols.5", "cols.7", "cols.16", "cols.21",
     "cols.32", "cols.43", "class.padded_stride",
 ];
@@ -25,8 +25,13 @@ pub trait Elem: MatrixElement + PartialEq + Debug + Send + 'static {
     fn unequal_to_itself() -> Option<Self> {
         None
     }
+    /// values whose bytes are all identical (0, all-ones, 0x0101..): candidates for a memset path
+    fn byte_uniform(i: usize) -> Self;
 }
 impl Elem for u8 {
+    fn byte_uniform(i: usize) -> Self {
+        [0u8, 255, 1, 0x5a][i % 4]
+    }
     fn from_u(x: u64) -> Self {
         (x % 251) as u8 + 1
     }
@@ -35,6 +40,9 @@ impl Elem for u8 {
     }
 }
 impl Elem for u32 {
+    fn byte_uniform(i: usize) -> Self {
+        [0u32, u32::MAX, 0x0101_0101, 0x5a5a_5a5a][i % 4]
+    }
     fn from_u(x: u64) -> Self {
         (x % 4_000_000_007) as u32 | 1
     }
@@ -43,6 +51,9 @@ impl Elem for u32 {
     }
 }
 impl Elem for f32 {
+    fn byte_uniform(i: usize) -> Self {
+        [0.0f32, f32::from_bits(0x0101_0101), f32::from_bits(0x4040_4040), 0.0][i % 4]
+    }
     fn unequal_to_itself() -> Option<Self> {
         Some(f32::NAN)
     }
@@ -54,6 +65,9 @@ impl Elem for f32 {
     }
 }
 impl Elem for i64 {
+    fn byte_uniform(i: usize) -> Self {
+        [0i64, -1, 0x0101_0101_0101_0101, 0x5a5a_5a5a_5a5a_5a5a][i % 4]
+    }
     fn from_u(x: u64) -> Self {
         (x as i64) | 1
     }
@@ -151,6 +165,50 @@ fn check_state<T: Elem, C: ArrayLength + PartialEq>(
         let kk = k.min(rows);
         if d.len() != kk || d.iter().enumerate().any(|(i, r)| *r != &model[kk - 1 - i][..]) {
             return Err(format!("after {}: iter().take({}).rev() does not yield the first rows in reverse order", op, k));
+        }
+    }
+    {
+        // reversed INTERNAL iteration (fold / for_each / last go through rfold): last row first
+        let mut seen: Vec<usize> = Vec::new();
+        let mut k = rows;
+        let ok = m.iter().rev().fold(true, |acc, row| {
+            k = k.wrapping_sub(1);
+            seen.push(k);
+            acc && k < rows && row == &model[k][..]
+        });
+        if !ok || seen.len() != rows {
+            return Err(format!("after {}: iter().rev().fold() does not visit the rows last to first", op));
+        }
+        let mut idx = rows;
+        let mut good = true;
+        m.iter().rev().for_each(|row| {
+            idx = idx.wrapping_sub(1);
+            good &= idx < rows && row == &model[idx][..];
+        });
+        if !good || idx != 0 && rows > 0 {
+            return Err(format!("after {}: iter().rev().for_each() does not visit the rows last to first", op));
+        }
+        if m.iter().rev().last() != model.first().map(|r| &r[..]) || m.iter().last() != model.last().map(|r| &r[..]) {
+            return Err(format!("after {}: last() of the forward / reversed iterator is not the last / first row", op));
+        }
+        let mut pairs_ok = true;
+        m.iter().rev().enumerate().for_each(|(i, row)| pairs_ok &= i < rows && row == &model[rows - 1 - i][..]);
+        if !pairs_ok {
+            return Err(format!("after {}: iter().rev().enumerate().for_each() pairs rows with the wrong positions", op));
+        }
+        if rows >= 3 {
+            // partially consumed from both ends, then folded backwards
+            let mut it = m.iter();
+            let _ = it.next();
+            let _ = it.next_back();
+            let mut k2 = rows - 1;
+            let ok2 = it.rev().fold(true, |acc, row| {
+                k2 -= 1;
+                acc && row == &model[k2][..]
+            });
+            if !ok2 || k2 != 1 {
+                return Err(format!("after {}: a partially consumed iterator folded backwards visits the wrong rows", op));
+            }
         }
     }
     for over in [rows, rows + 1, rows + 7] {
@@ -355,7 +413,12 @@ pub fn history<T: Elem, C: ArrayLength + PartialEq>(case: u64, rng: &mut Rng, re
                     }
                 }
                 4 => {
-                    let v = next_val(rng);
+                    let v = if rng.chance(0.5) {
+                        rep.cover("op.fill.byte_uniform_value");
+                        T::byte_uniform(rng.below(4))
+                    } else {
+                        next_val(rng)
+                    };
                     m.fill(v);
                     for r in model.iter_mut() {
                         for x in r.iter_mut() {
